@@ -9,6 +9,7 @@
 //!   featsim show <prop> <verif_seed> <index>     per-operation results of one scenario
 //!   featsim exec <file>                          per-operation results of a scenario file
 
+mod api;
 #[path = "../../tzsim/src/alloc.rs"]
 mod alloc;
 #[path = "../../tzsim/src/canon.rs"]
@@ -382,6 +383,18 @@ fn exec_op(sc: &Scenario, st: &mut State, op: &Op) -> OpOut {
                     (d.is_ok(), u.is_ok())
                 });
                 let _ = write!(core, "fmt({},{:?},{},{:?})", r.0, std::str::from_utf8(&sb.b[..sb.n]).unwrap_or("?"), r.1, std::str::from_utf8(&sb2.b[..sb2.n]).unwrap_or("?"));
+                // the same values through format specifications with width, fill, alignment and precision
+                let mut sb3 = StackBuf { b: [0; 160], n: 0 };
+                let mut sb4 = StackBuf { b: [0; 160], n: 0 };
+                let _ = call!({
+                    if let Ok(d) = DateTime::from_timespec(*t, *ns, zr) {
+                        let _ = write!(sb3, "[{d:>44}][{d:<5}][{d:*^50}][{d:.3}]");
+                    }
+                    if let Ok(u) = UtcDateTime::from_timespec(*t, *ns) {
+                        let _ = write!(sb4, "[{u:>44}][{u:.7}][{u:#<40}]");
+                    }
+                });
+                let _ = write!(core, " spec({:?},{:?})", std::str::from_utf8(&sb3.b[..sb3.n]).unwrap_or("?"), std::str::from_utf8(&sb4.b[..sb4.n]).unwrap_or("?"));
             }
             None => core.push_str("skip"),
         },
@@ -446,6 +459,12 @@ pub fn exec_scenario(sc: &Scenario, mut per_op: impl FnMut(usize, &Op, &OpOut)) 
 
 fn main() {
     std::panic::set_hook(Box::new(|_| {}));
+    // the documented API surface of this configuration (a compile gate; calling it is cheap)
+    api::traits();
+    let _ = api::conversions();
+    let _ = api::conversions_tz();
+    #[cfg(feature = "tz-alloc")]
+    let _ = api::with_alloc();
     let args: Vec<String> = std::env::args().skip(1).collect();
     match args.first().map(|s| s.as_str()) {
         Some("run") => {
